@@ -140,6 +140,22 @@ def handle (line : String) : String :=
     match unxBytes b with
     | some bytes => s!"read={(readLinkB bytes).render} written=x{hexOfBytes (writeLinkB '/' (readLinkB bytes))}"
     | none => "bad-op"
+  | "omap" :: _n :: ops =>
+    -- the model of ordered_map.rs on the same op sequence as the real OrderedMap<String, u64>
+    let rec go (m : OMap Nat) : List String → Option (OMap Nat)
+      | [] => some m
+      | "a" :: k :: v :: rest => match v.toNat? with | some v => go (m.add k v) rest | none => none
+      | "u" :: k :: v :: rest => match v.toNat? with
+        | some v => (match m.update k v with | some m' => go m' rest | none => some ⟨["!panic"], []⟩)
+        | none => none
+      | "r" :: k :: rest => go (m.remove k) rest
+      | "R" :: rest => go m.reverseOrder rest
+      | _ => none
+    match go OMap.empty ops with
+    | some m =>
+      if m.vec = ["!panic"] ∧ m.map.isEmpty then "panic"
+      else s!"iter=[{joinWith "," (m.iter.map fun e => s!"{e.1}:{e.2}")}] len={(m.iter.map (·.1)).eraseDups.length}"
+    | none => "bad-op"
   | ["chunks", len] =>
     match chunkCfg?, len.toNat? with
     | some k, some n => renderLens (readFileLens k n [])
